@@ -70,6 +70,9 @@ func c18(args []string) {
 			}
 			for k := 0; k < cnt; k++ {
 				f := fmt.Sprintf("m%d_%03d.txt", u, k)
+				if i%2 == 1 {
+					f = fmt.Sprintf("part%d_u%d.txt", cnt-k, u) // arrival order differs from the lexicographic order of the names
+				}
 				src.Files = append(src.Files, f)
 				s.Sources[f] = f + "\n"
 				if j.n <= 12 {
